@@ -209,7 +209,10 @@ func scenRestart(rep *Report, tier string, seed int64) {
 		afterGap := false
 		for h := range at {
 			for g := range gaps {
-				if h > g && h < g+uint32(s.AvgPeriod) {
+				// the reload after a restart at h prices the next rated block over the height window
+				// ending at the last rated height (about h); an ungraded height g inside it is
+				// what the count-trimmed cache of the continuous process does not have
+				if h+1 >= g && h <= g+uint32(s.AvgPeriod) {
 					afterGap = true
 				}
 			}
